@@ -216,7 +216,7 @@ class Interp:
         self.steps = 0
         self.max_steps = 300000
         import time as _time
-        self._t0 = _time.monotonic()
+        self._t0 = _time.process_time()       # (CPU time: a budget must not depend on how busy the machine is)
         self.max_seconds = float(os.environ.get("SA_MAX_SECONDS", "90"))   # wall-clock budget of one interpreter (resource limit: exit 2)
         from . import lib
 
@@ -300,7 +300,7 @@ class Interp:
         from .frames import flat_pc
         import time as _time
         for o in outs:
-            if _time.monotonic() - self._t0 > 2 * self.max_seconds:
+            if _time.process_time() - self._t0 > 2 * self.max_seconds:
                 raise AnalysisError(f"analysis budget exceeded ({int(2 * self.max_seconds)} s in one interpreter, {len(outs)} paths: the guards grew too large to handle)")
             if any(isinstance(g, tuple) and g and g[0] in ("and", "or") for g in o.state.pc):
                 have = list(o.state.pc)
@@ -566,7 +566,7 @@ class Interp:
             import time as _time
             from .frames import check_deadline
             check_deadline(f"at {ctx.loc(node)}")
-            if _time.monotonic() - self._t0 > self.max_seconds:
+            if _time.process_time() - self._t0 > self.max_seconds:
                 raise AnalysisError(f"analysis budget exceeded ({int(self.max_seconds)} s in one interpreter: the guards grew too large to handle) at {ctx.loc(node)}")
         m = getattr(self, "st_" + type(node).__name__, None)
         if m is None:
